@@ -49,6 +49,10 @@ func drawC10(rt *rapid.T) *Case {
 	atV := &gen.Path{Root: gen.RootAt, Steps: []gen.Step{name("v")}}
 	atBare := &gen.Path{Root: gen.RootAt}
 	atVW := &gen.Path{Root: gen.RootAt, Steps: []gen.Step{name("v"), name("w")}}
+	fn := func(n string, agg bool) gen.Step { return gen.Step{Kind: gen.KFunc, Fn: n, Agg: agg} }
+	atVfn := &gen.Path{Root: gen.RootAt, Steps: []gen.Step{name("v"), fn("fnan", false)}} // negative numbers become NaN
+	atVf2 := &gen.Path{Root: gen.RootAt, Steps: []gen.Step{name("v"), fn("f2", false)}}   // number+1, !bool, errors on strings/containers
+	dollarXsCount := &gen.Path{Root: gen.RootDollar, Steps: []gen.Step{name("xs"), fn("g1", true)}}
 	dollarX := &gen.Path{Root: gen.RootDollar, Steps: []gen.Step{name("x")}}
 	dollarY := &gen.Path{Root: gen.RootDollar, Steps: []gen.Step{name("y")}}
 
@@ -56,15 +60,21 @@ func drawC10(rt *rapid.T) *Case {
 	q := &gen.Query{}
 	isRegex := gen.Uniform(rt, "regex", 8) == 0
 	var left *gen.Path
-	switch k := gen.Uniform(rt, "leftform", 10); {
+	switch k := gen.Uniform(rt, "leftform", 14); {
 	case k < 5:
 		left = atV
 	case k < 7:
 		left = atBare
 	case k < 8:
 		left = atVW
-	default:
+	case k < 10:
 		left = dollarX
+	case k < 11:
+		left = atVfn
+	case k < 12:
+		left = atVf2
+	default:
+		left = dollarXsCount
 	}
 	pathVsPath := false
 	if isRegex {
@@ -91,7 +101,15 @@ func drawC10(rt *rapid.T) *Case {
 		lit = mkLit()
 		a := &gen.Operand{P: left}
 		var b *gen.Operand
-		switch k := gen.Uniform(rt, "rightform", 10); {
+		k := gen.Uniform(rt, "rightform", 10)
+		if !numeric && (left == atVfn || left == atVf2 || left == dollarXsCount) {
+			// == / != between two paths is reflect.DeepEqual: a user function that returns float64
+			// next to json.Number document values is outside the property's domain (its quantifier
+			// restricts path-vs-path == to identically represented numbers), so function operands
+			// meet literals there
+			k = 0
+		}
+		switch {
 		case k < 6:
 			b = lit
 		case k < 8:
@@ -154,6 +172,11 @@ func drawC10(rt *rapid.T) *Case {
 	if y := c10Value(rt, "y", alt); y != nil {
 		root.Set("y", y)
 	}
+	xs := gen.Arr()
+	for i, n := 0, gen.Uniform(rt, "nxs", 4); i < n; i++ {
+		xs.Kids = append(xs.Kids, gen.NumText("1"))
+	}
+	root.Set("xs", xs)
 	p := &gen.Path{Root: gen.RootDollar, Steps: []gen.Step{name("list"), {Kind: gen.KFilter, Q: q}}}
 	return &Case{Path: gen.Render(p, gen.Canon).Text, AST: p, Doc: root}
 }
@@ -193,7 +216,7 @@ func checkC10(c *Case, st *Stats) string {
 	for vi, ast := range variants {
 		text := gen.Render(ast, gen.Canon).Text
 		for _, useNumber := range []bool{false, true} {
-			cc := &Case{Path: text, Doc: c.Doc, UseNumber: useNumber}
+			cc := &Case{Path: text, Doc: c.Doc, UseNumber: useNumber, Funcs: true}
 			lib := evalLibrary(cc, cc.Document(), false)
 			st.Eval(1)
 			if lib.parseErr != nil {
